@@ -178,6 +178,30 @@ def run(tier="quick", seed=0, repo="/repo"):
                 ok, prefix = False, "merge-nullcount"
             cid = f"{prefix}:{tname}:{sname}:{'+'.join(clauses)}:{form}"
             t.case(cid, cid, ok, function="fakesnow.transforms_merge.merge", case={"target": tname, "source": sname, "clauses": clauses, "form": form}, expected="reference MERGE", actual=detail, sample_every=29)
+    # SET / VALUES right-hand sides that are expressions over target *and* source columns of the same names, for both sort orders
+    # of the two table names
+    for tname, sname in (("accounts", "bookings"), ("zledger", "adjust")):
+        cur = conn.cursor()
+        try:
+            cur.execute(f"create or replace table {tname} (id int, note varchar, amt int)")
+            cur.execute(f"create or replace table {sname} (id int, note varchar, amt int)")
+            cur.execute(f"insert into {tname} values (1, 't1', 10), (2, 't2', 20), (3, 't3', 30)")
+            cur.execute(f"insert into {sname} values (2, 's2', 5), (3, 's3', 7), (4, 's4', 9)")
+            cur.execute(
+                f"merge into {tname} using {sname} on {tname}.id = {sname}.id "
+                f"when matched and {tname}.amt + {sname}.amt > 30 then update set note = {tname}.note || '+' || {sname}.note, amt = {tname}.amt - {sname}.amt "
+                f"when matched then update set note = {sname}.note || '<' || {tname}.note "
+                f"when not matched then insert (id, note, amt) values ({sname}.id, upper({sname}.note), {sname}.amt * 2)"
+            )
+            counts = cur.fetchall()
+            cur.execute(f"select id, note, amt from {tname} order by id")
+            got = cur.fetchall()
+            want = [(1, "t1", 10), (2, "s2<t2", 20), (3, "t3+s3", 23), (4, "S4", 18)]
+            ok, detail = got == want and [tuple(int(x) for x in r) for r in counts] == [(1, 2)], f"target {got} counts {counts}"
+        except Exception as e:  # noqa: BLE001
+            ok, detail = False, f"{type(e).__name__}: {str(e)[:160]}"
+        t.case(f"merge-expr:{tname}<-{sname}", ("merge-expr", tname), ok, function="fakesnow.transforms_merge._create_merge_candidates", case={"target": tname, "source": sname},
+               expected="target [(1,'t1',10),(2,'s2<t2',20),(3,'t3+s3',23),(4,'S4',18)] counts [(1, 2)]", actual=detail)
     t.case("helper:merge_candidates visible after MERGE", ("helper",), not helper_visible(conn), function="fakesnow.transforms_merge.merge", case={}, expected="no helper object visible in the session", actual="select * from merge_candidates succeeds" if helper_visible(conn) else "ok")
     # all or nothing: a MERGE whose later clause fails must leave the target as it was
     cur = conn.cursor()
